@@ -1,5 +1,5 @@
 // native replay for lr.read.bracket / lr.indicator.counts: runs the real xenium::left_right<T>::read from /repo
-// (in_ver: version index, in_lri: indicator, in_left/in_right, in_rk: functor parameter, in_c0/in_c1: counters, in_throw: functor throws)
+// (in_ver: version index, in_lri: indicator, in_left/in_right, in_rk: functor parameter, in_c0/in_c1: number of other readers inside on indicator 1/2, in_throw: functor throws)
 #include <xenium/left_right.hpp>
 #include <cstdio>
 #include <cstdlib>
@@ -18,20 +18,22 @@ int main(int argc, char** argv) {
   using LR = xenium::left_right<inst>;
   LR lr(inst{L0}, inst{R0});
   lr._lr_indicator.store(lri); lr._version_index.store(ver);
-  lr._read_indicator1._counter.store(c0); lr._read_indicator2._counter.store(c1);
-  int n = 0, bad = 0; const inst* seen = nullptr; uint64_t in0 = 0, in1 = 0; bool threw = false; uint64_t res = 0;
+  if (c0 > 16 || c1 > 16) { printf("occupancy too large for the replay\n"); return 2; }
+  for (uint64_t i = 0; i < c0; ++i) lr._read_indicator1.arrive();
+  for (uint64_t i = 0; i < c1; ++i) lr._read_indicator2.arrive();
+  int n = 0, bad = 0; const inst* seen = nullptr; bool in0 = false, in1 = false; bool threw = false; uint64_t res = 0;
   #define CHECK(c, msg) do { if (!(c)) { printf("VIOLATION: %s\n", msg); bad++; } } while (0)
   try {
     res = lr.read([&](const inst& x) {
-      ++n; seen = &x; in0 = lr._read_indicator1._counter.load(); in1 = lr._read_indicator2._counter.load();
+      ++n; seen = &x; in0 = lr._read_indicator1.empty(); in1 = lr._read_indicator2.empty();
       lr._version_index.store(1 - ver);     // a writer toggles the version while we are inside
       if (thr) throw std::runtime_error("functor");
       return x.val ^ rk; });
   } catch (const std::runtime_error&) { threw = true; }
   const inst* sel = (lri == LR::READ_LEFT) ? &lr._left : &lr._right;
   CHECK(n == 1 && seen == sel, "functor not applied exactly once to the instance the indicator selects");
-  CHECK(in0 == c0 + (ver == 0) && in1 == c1 + (ver == 1), "not arrived on the indicator selected by the version index while the functor runs");
-  CHECK(lr._read_indicator1._counter.load() == c0 && lr._read_indicator2._counter.load() == c1, "depart not on the indicator of the arrive (counters not restored)");
+  CHECK((ver == 0 ? !in0 : !in1) && (ver == 0 ? in1 == (c1 == 0) : in0 == (c0 == 0)), "not counted on (only) the indicator selected by the version index while the functor runs");
+  CHECK(lr._read_indicator1.empty() == (c0 == 0) && lr._read_indicator2.empty() == (c1 == 0), "depart not on the indicator of the arrive (occupancy not restored)");
   if (!threw) CHECK(res == (sel->val ^ rk), "read did not return the functor's result");
   CHECK(lr._left.val == L0 && lr._right.val == R0 && lr._lr_indicator.load() == lri, "read modified the object");
   printf("read: %d violations\n", bad);
